@@ -35,7 +35,7 @@ RULE = ("transmitter: grids of 1-8 points given unsorted and with duplicates, 0-
         "phase (reset / before or after the k-th execution), non-decreasing stamps, EventReset/Step/Done stamped with the latest market event "
         "processed, EventNewDate stamped with the last event of the previous date, env.now() and the contracts clock equal to those stamps, order "
         "book after reset = last quote in chronological order. Non-trivial = at least one latent event, one replayed history event and one "
-        "undeliverable event (environment: additionally a date boundary inside an episode).")
+        "undeliverable event (environment: additionally a date boundary inside an episode). at-ruin: C09's ruin scenarios (decision arriving broke through a latent quote, or ruin during the step's own events): after every step, the ruin step included, the environment clock and the exchange stand at the latest event of the timestep the step landed on.")
 ASSUMPTIONS = [
     "under markov reset, events stamped before the first grid point are not generated (the statement's clauses disagree about them)",
     "environment part: every event-bearing timestep carries an event exactly at the grid point (otherwise two decisions can share a timestamp; belongs to no listed property)",
@@ -449,7 +449,20 @@ def finish_env(res, case, agg):
     return res
 
 
+def _at_ruin_cases(tier):
+    from props import c09
+    return c09.cases(tier)
+
+
+def _at_ruin(case):
+    # Delivery in the step that ends an episode by insolvency (scenario generator and ledger shared with C09): the step
+    # must still hand out the market events of the timestep it lands on - clock and exchange stand at its latest event.
+    from props import c09
+    return c09.run_env(case)
+
+
 PARTS = [
     Part("transmitter", strategy=lambda tier: tx_cases(tier), run=run_tx, quick=16000, thorough=400000),
     Part("environment", strategy=lambda tier: env_cases(tier), run=run_env, quick=8000, thorough=200000),
+    Part("at-ruin", strategy=_at_ruin_cases, run=_at_ruin, quick=1500, thorough=40000),
 ]
